@@ -62,6 +62,18 @@ def build(case):
 
 
 def run(case):
+    import os, shutil
+    home = os.getcwd()
+    try:
+        return run_in(case)
+    finally:
+        here = os.getcwd()
+        if here != home:           # a paged run works in its own scratch directory
+            os.chdir(home)
+            shutil.rmtree(here, ignore_errors=True)
+
+
+def run_in(case):
     out = {"id": case["id"]}
     try:
         if case["what"] == "trigger":
